@@ -55,7 +55,7 @@ CHECKS.update({
         note="Pooled writers: C13; mtbl_info formatting not encoded.",
         ref="DESIGN.md 4 C10"),
     "C11": dict(
-        text="Files laid out by an independent reference encoder (v1/v2, every restart-flag subset, maximal and non-maximal sharing, separators anywhere in the legal interval, index with/without restarts, foreign prefix incl. two-byte varint offsets, compression ids via ghost codec, with/without checksum verification) are read by the real reader through the real mtbl_reader_init_fd: full iteration, lookups and a seek return exactly the encoded entries; all content bytes symbolic.",
+        text="Files laid out by an independent reference encoder (v1/v2, every restart-flag subset, maximal and non-maximal sharing, separators anywhere in the legal interval, index with/without restarts, foreign prefix incl. two-byte varint offsets, compression ids via ghost codec, with/without checksum verification) are read by the real reader through the real mtbl_reader_init_fd: full iteration, lookups and a seek return exactly the encoded entries; all content bytes symbolic. Restart-array location and width (32/64-bit) are decided for every block size up to 2^36 and every restart count at block_init/get_restart_point level, together with the builder's size estimate.",
         note="<= 3 blocks / 5 entries; 64-bit restart arrays (blocks > 4 GiB) and >=128-byte keys are outside; encoder is part of the trusted base.",
         ref="DESIGN.md 4 C11"),
 })
